@@ -489,6 +489,99 @@ def gridstate_task(seqs):
     return st
 
 
+def thread_lifetime_history(n):
+    """Filters compiled by short-lived threads whose lifetimes do not overlap (each is joined before the next starts), then
+    re-used from the main thread: the result of a filter is independent of which thread compiled which filter earlier."""
+    import threading
+    import hszinc as hs
+    from hszinc import grid_filter as gf
+    st = Stats()
+    gc.disable()
+    reset(gf, None)
+    g = hs.Grid(version='3.0', columns=[('id', []), ('n', [])])
+    for i in range(n + 2):
+        g.append({'id': 'r%d' % i, 'n': float(i)})
+    rows = list(g)
+    problem = None
+    errors = []
+    fns = {}
+
+    def work(i):
+        try:
+            fn = gf.filter_function('n == %d' % i)
+            fns[i] = fn
+            if not (fn(g, rows[i]) is True and fn(g, rows[i + 1]) is False):
+                errors.append('filter n == %d wrong in its own thread' % i)
+            if [r['id'] for r in g.filter('n == %d' % i)] != ['r%d' % i]:
+                errors.append('Grid.filter n == %d wrong in its own thread' % i)
+        except BaseException as e:  # noqa
+            errors.append('thread %d raised %s' % (i, type(e).__name__))
+    for lap in range(2):
+        for i in range(n):
+            t = threading.Thread(target=work, args=(i,))
+            t.start()
+            t.join()
+            st.count('transitions')
+        for i in range(n):
+            try:
+                ok = [r['id'] for r in g.filter('n == %d' % i)] == ['r%d' % i] and fns[i](g, rows[i]) is True and fns[i](g, rows[i + 1]) is False
+            except BaseException as e:  # noqa
+                ok = False
+                errors.append('main thread: n == %d raised %s' % (i, type(e).__name__))
+            if not ok and not problem:
+                problem = 'filter n == %d, compiled by an earlier short-lived thread, answers with other rows (lap %d)' % (i, lap)
+    if errors and not problem:
+        problem = errors[0]
+    gc.enable()
+    st.count('executions')
+    st.count('states', n * 2)
+    st.case(('thread-lifetimes', n), outcome=('thread-lifetimes', bool(problem)))
+    if problem:
+        st.fail('wrong-rows-after-filters-compiled-by-earlier-threads', {'shape': 'thread-lifetimes', 'capacity': 'real'},
+                {'kind': 'thread-lifetimes', 'n': n}, {'what': problem})
+    reset(gf, None)
+    return st
+
+
+def huge_cache_history(n):
+    """n distinct filters alive at the same time (the cache capacity is RAISED above n, the mirror image of shrinking it to
+    1 or 2): whatever identifies a compiled filter inside the library must tell all of them apart.  Thorough tier only."""
+    import hszinc as hs
+    from hszinc import grid_filter as gf
+    st = Stats()
+    gc.disable()
+    used = reset(gf, n + 10)
+    g = hs.Grid(version='3.0', columns=[('id', []), ('n', [])])
+    g.append({'id': 'a', 'n': 1.0})
+    unraisable = []
+    old = sys.unraisablehook
+    sys.unraisablehook = lambda u: unraisable.append(type(u.exc_value).__name__)
+    problem = None
+    fns = []
+    try:
+        for i in range(n):
+            fns.append(gf.filter_function('n == %d' % i))
+            st.count('transitions')
+        for i, fn in enumerate(fns):
+            if not (fn(g, {'n': float(i)}) is True and fn(g, {'n': float(i + 1)}) is False):
+                problem = 'with %d filters alive, the function for n == %d answers as another filter' % (n, i)
+                break
+    except BaseException as e:  # noqa
+        problem = 'raised %s' % type(e).__name__
+    del fns
+    reset(gf, None)
+    sys.unraisablehook = old
+    gc.enable()
+    if unraisable and not problem:
+        problem = 'exception ignored in finaliser: ' + ','.join(sorted(set(unraisable)))
+    st.count('executions')
+    st.count('states', n)
+    st.case(('huge', n), outcome=('huge', bool(problem)))
+    if problem:
+        st.fail('wrong-rows-with-many-filters-alive', {'shape': 'huge-cache', 'capacity': str(used)}, {'kind': 'huge-cache', 'n': n}, {'what': problem})
+    return st
+
+
 def long_history(kind, n, laps):
     """Boundary histories with the real cache capacity: individual long runs, not exhaustive."""
     import hszinc as hs
@@ -547,6 +640,10 @@ def long_history(kind, n, laps):
     return st
 
 
+def _single_run(kind, args):
+    return {'huge': huge_cache_history, 'long': long_history, 'threads': thread_lifetime_history}[kind](*args)
+
+
 def run(ctx):
     st = Stats()
     # (threads, cache capacity, preemption bound, filter calls per thread)
@@ -579,16 +676,18 @@ def run(ctx):
     longs = [('cyclic', 499, 2), ('cyclic', 500, 2), ('cyclic', 501, 2), ('cyclic', 502, 2), ('hot-cold', 1100, 1), ('hot-cold', 520, 2)]
     if not ctx.quick:
         longs += [('cyclic', 1500, 2), ('cyclic', 501, 3), ('cyclic', 502, 3), ('hot-cold', 2600, 1), ('hot-cold', 5200, 1)]
-    for part in pmap(long_history, longs, ctx.jobs):
+    huge = [(3000,)] if ctx.quick else [(150000,)]
+    singles = [('huge', a) for a in huge] + [('long', a) for a in longs] + [('threads', (8,)), ('threads', (40,))]
+    for part in pmap(_single_run, singles, ctx.jobs):
         st.merge(part)
     return {
         'stats': st, 'exhaustive': True,
         'rule': 'schedules: every interleaving (scheduling point = every source line of the non-lambda functions of hszinc/grid_filter.py and of '
                 'Grid.filter) of the listed thread plans with at most preemption_bound preemptions, each followed by a sequential post-phase; '
                 'histories: every request sequence of length <= %d over 4 filters with cache capacity 1 and 2; every ordered pair of 26 near-colliding or unit-sensitive filters (same text up to the kind of the literal, blanks or parentheses) from a clean state; every history of length <= %d over 3 reference-following filters and 7 data changes (row replaced, mutated in place, deleted and re-appended, tag dropped, rows appended, grid swapped for another of the same size) ending in an evaluation; plus individual long histories around '
-                'the real capacity (reported as individual runs, not exhaustive); evaluations = complete executions of the real code; distinct = '
+                'the real capacity and two histories of 8 / 40 filters compiled by consecutive short-lived threads (reported as individual runs, not exhaustive); evaluations = complete executions of the real code; distinct = '
                 'distinct (plan, capacity, schedule) or request sequence; non-trivial = at least one non-default scheduling choice / two different filters' % (L, GL),
-        'coverage': {'bounds': {'schedule_plans': bounds, 'history_length': L, 'history_capacities': [1, 2], 'long_histories': longs, 'data_history_length': GL, 'data_histories': len(gs), 'data_events': GS_EVENTS},
+        'coverage': {'bounds': {'schedule_plans': bounds, 'history_length': L, 'history_capacities': [1, 2], 'long_histories': longs, 'filters_alive_at_once': huge[0][0], 'data_history_length': GL, 'data_histories': len(gs), 'data_events': GS_EVENTS},
                      'exhaustive_note': 'exhaustive for the schedule plans up to their preemption bound and for the short histories; the long histories are single runs'},
         'assumptions': ['interleavings below source-line granularity and inside C code (functools.lru_cache, dict operations) are not explored',
                         'gc is disabled during an execution so finalisers run at reference-count zero only',
@@ -603,6 +702,10 @@ def replay(case, st):
             st.fail(sym, {'capacity': str(used)}, case, {'what': text})
     elif case['kind'] == 'family':
         st.merge(family_task([tuple(case['seq'])]))
+    elif case['kind'] == 'huge-cache':
+        st.merge(huge_cache_history(case['n']))
+    elif case['kind'] == 'thread-lifetimes':
+        st.merge(thread_lifetime_history(case['n']))
     elif case['kind'] == 'gridstate':
         st.merge(gridstate_task([tuple(case['seq'])]))
     elif case['kind'] == 'history':
